@@ -157,3 +157,6 @@ package pseudonymization
 //@   props C10
 //@   at call Pseudoanonymizer.Deanonymize : assert arg[1] == context
 //@   ensures int32-in-range: called(Pseudoanonymizer.Deanonymize#0) ==> typeis(argof(Pseudoanonymizer.Deanonymize#0)[0], int32) && int64(unbox(argof(Pseudoanonymizer.Deanonymize#0)[0], int32)) == ret(strconv.ParseInt#0)[0] && ret(strconv.ParseInt#0)[1] == nil
+
+// The retry limit of token generation is fixed when the anonymizer is built.
+//@ structural retry-limit-immutable props C10 C14 : field-readonly pseudoanonymizer.dataGenerationLoopLimit allow NewPseudoanonymizer
